@@ -139,6 +139,32 @@ fn check_multi(k: u64, len: usize, right: bool, user_debug: bool) -> Option<(Str
     match r { Ok(Ok(())) => None, Ok(Err(e)) => Some(e), Err(p) => Some((format!("panic:{}", panic_site(&p)), format!("{tag}: {p}"))) }
 }
 
+// ---- scale: many uses of externals in one file (relocation tables past 32 / 64 / 256 entries), declarations before or after the uses
+fn check_many(ne: usize, nf: usize, after: bool, user_debug: bool) -> Option<(String, String)> {
+    let tag = format!("{ne} externals x {nf} .fill uses each, declared {} the uses, user {} debug symbols", if after { "after" } else { "before" }, if user_debug { "with" } else { "without" });
+    let r = catch(|| -> Result<(), (String, String)> {
+        let mut body = vec![]; for u in 0..nf { for e in 0..ne { body.push(st(Nuc::Fill(FillOp::Lab(format!("{}{e}", if u % 2 == 0 { "EXT" } else { "ext" }))))); } }
+        let decls: Vec<AStmt> = (0..ne).map(|e| st(Nuc::External(format!("Ext{e}")))).collect();
+        let mut user = vec![]; if !after { user.extend(decls.clone()); } user.extend(block(0x5000, body)); if after { user.extend(decls); }
+        let definer = block(0x4000, (0..ne).map(|e| lst(&format!("EXT{e}"), Nuc::Fill(FillOp::Num(e as u16)))).collect());
+        let Some((uo, _)) = assemble_prog(&user, user_debug, &Style::plain()) else { return Err(("machinery:generator".into(), format!("{tag}: user does not assemble"))) };
+        let Some((dobj, _)) = assemble_prog(&definer, true, &Style::plain()) else { return Err(("machinery:generator".into(), "definer does not assemble".into())) };
+        let mut sim = new_sim();
+        if !matches!(sim.load_obj_file(&uo), Err(SimErr::UnresolvedExternal(_))) { return Err(("many:direct-load-succeeds".into(), format!("{tag}: loading the unlinked user succeeded"))); }
+        for order in 0..2 {
+            let linked = if order == 0 { ObjectFile::link(uo.clone(), dobj.clone()) } else { ObjectFile::link(dobj.clone(), uo.clone()) };
+            let linked = linked.map_err(|e| ("many:link-fails".to_string(), format!("{tag} order={order}: {:?}", e.kind)))?;
+            let mut sim = new_sim();
+            if let Err(e) = sim.load_obj_file(&linked) { return Err(("many:linked-load-fails".into(), format!("{tag} order={order}: {e:?}"))); }
+            let bad: Vec<u16> = (0..nf * ne).filter(|k| sim.mem[0x5000 + *k as u16].get() != 0x4000 + (*k % ne) as u16).map(|k| 0x5000 + k as u16).collect();
+            if !bad.is_empty() { return Err(("many:silently-unresolved".into(), format!("{tag} order={order}: the load succeeds but {} of {} .fill sites do not hold their label's address (first: x{:04X})", bad.len(), nf * ne, bad[0]))); }
+        }
+        Ok(())
+    });
+    match r { Ok(Ok(())) => None, Ok(Err(e)) => Some(e), Err(p) => Some((format!("panic:{}", panic_site(&p)), format!("{tag}: {p}"))) }
+}
+const MANY: [(usize, usize); 12] = [(1, 31), (1, 32), (1, 33), (1, 64), (1, 65), (1, 66), (1, 255), (1, 256), (1, 257), (6, 8), (3, 40), (2, 300)];
+
 pub fn run(ctx: &Ctx) -> Report {
     let mut rep = Report::new(".external X placed {before the block, inside before the use, inside after the use, after the block, between two blocks (use before / after)} x {1 use, 2 uses, 2 uses in different letter case} x user assembled with/without debug symbols x 3 origins x 3 definer addresses x definer with/without debug symbols x label name {ASCII mixed case, containing a non-ASCII letter}; direct load must fail with UnresolvedExternal; after linking with a definer that carries its label table, in either order, every .fill word must hold X's address and the load must succeed; after linking with a definer assembled without debug symbols (no label table, nothing to resolve against) the load must still fail with UnresolvedExternal rather than run with 0. Chains: every ordered selection of 2-3 (thorough 4) of 7 files (two users of 2 and 3 distinct externals with repeated and differently-cased uses, definers of P / Q / R / P+Q, a definer of R that itself uses P), folded from the left and from the right, every file that declares externals (users, and the definer that itself uses an external) with and without debug symbols; after every link step: if some used label is still undefined the load must fail naming one of them, otherwise it must succeed with every .fill site holding its label's address; links fail only on duplicate definitions. non-trivial = every case (each has an unresolved external)");
     let n = PLACEMENTS * USES * 2 * 3 * 3 * 2 * 2;
@@ -159,11 +185,18 @@ pub fn run(ctx: &Ctx) -> Report {
         });
         rep.absorb(r);
     }
+    let r = sweep(ctx, MANY.len() as u64 * 4, 1, |j, acc| {
+        let ((ne, nf), after, ud) = (MANY[(j / 4) as usize], j % 2 == 1, j / 2 % 2 == 1);
+        acc.evals += 1; acc.transitions += (ne * nf) as u64; acc.nontrivial += 1; acc.count("many_uses_cases", 1);
+        if let Some((sig, d)) = check_many(ne, nf, after, ud) { acc.violation(sig, format!("n:{j}"), d); }
+    });
+    rep.absorb(r);
     rep.require(rep.acc.get("multi_external_chains") > 500, "chains with several externals were judged");
     rep.bound("cases", Json::i(n));
     rep
 }
 pub fn replay(case: &str) -> Option<String> {
+    if let Some(j) = case.strip_prefix("n:") { let j: u64 = j.parse().ok()?; let (ne, nf) = *MANY.get((j / 4) as usize)?; return check_many(ne, nf, j % 2 == 1, j / 2 % 2 == 1).map(|x| format!("[{}] {}", x.0, x.1)); }
     if let Some(rest) = case.strip_prefix("m:") {
         let p: Vec<u64> = rest.split(':').filter_map(|x| x.parse().ok()).collect();
         return check_multi(*p.first()?, *p.get(1)? as usize, *p.get(2)? == 1, *p.get(3)? == 1).map(|x| format!("[{}] {}", x.0, x.1));
